@@ -105,7 +105,8 @@ def _gen_params(rng, p, opts):
         out.update(num=num, low=low, high=high)
     elif p == "SparselyBin":
         if dy:
-            out.update(binWidth=rng.pick([0.25, 0.5, 1.0, 2.0]), origin=_dy(rng, -2.0, 2.0, 0.25))
+            # (3, 5, 7, 49, 1.5, 2.5: not powers of two, yet every edge origin + k * width is exact and divides back exactly)
+            out.update(binWidth=rng.pick([0.25, 0.5, 1.0, 2.0, 0.5, 1.0, 3.0, 5.0, 7.0, 49.0, 1.5, 2.5]), origin=_dy(rng, -2.0, 2.0, 0.25))
         else:
             out.update(binWidth=rng.pick([0.1, 1.0 / 3.0, 0.7, 0.01, 3.3, 0.2]),
                        origin=rng.pick([0.0, 0.1, -0.3, 1e6, -1e6, 1.0 / 3.0, 0.05]))
